@@ -1,7 +1,7 @@
 SPECIFICATION MCSpec
 CONSTANTS Berlin = 8
-          MaxDepth = 3
-          MaxFrames = 5
+          MaxDepth = 4
+          MaxFrames = 6
 INVARIANTS StaticNoEffect StaticInherited LiveFramesNotDead MarksOnlyFromLiveFrames StaticFramesLeaveNoMarks
 VIEW View
 CHECK_DEADLOCK FALSE
